@@ -307,5 +307,16 @@ JsonDenotes ==
   LET src == ModelSrc("d1")
       rd == ReadAJ(EncAJ(ms, "d1"))
   IN ReadBagEq(rd, src) \/ ShadowExplains(src, rd) \/ HasDefaultPrefix(src)
+(* the same for the transcribed PROV-XML writer, for both values of force_types.  A literal typed *)
+(* xsd:QName is not XML-expressible (C02's quantifier): the format spells qualified names so.     *)
+HasQNameLit(src) ==
+  LET all == SeqToSet(src.recs) \cup UNION {SeqToSet(src.bundles[i].recs) : i \in 1..Len(src.bundles)} IN
+  \E r \in all : \E i \in 1..Len(r.attrs) : r.attrs[i].v.t = "lit" /\ r.attrs[i].v.dt \in {<<"xsd#", "QName">>, <<"xsd", "QName">>}
+XmlDenotes ==
+  LET src == ModelSrc("d1") IN
+  HasQNameLit(src) \/
+  \A force \in BOOLEAN :
+     LET rd == ReadAX(EncAX(ms, "d1", force, NoObs)) IN
+     ReadBagEq(rd, src) \/ ShadowExplains(src, rd)
 IndexOK == \A h \in DOMAIN ms.con : ms.con[h].kind # "loose" => IndexCoherent(ms.con[h])
 =============================================================================
